@@ -33,6 +33,21 @@ Theorem C18_context_rejects : forall c h,
   ~ In (hs_version h) c_registered_versions -> ctx_handshake c h = Err EInvalidVersion.
 Proof. exact ctx_handshake_rejects. Qed.
 
+(* any registry: the exported Register lets an application register an implementation under further numbers.  A
+   handshake is accepted exactly for the numbers in the registry, and the context adopts the handshake's number,
+   whatever the implementation calls itself; on the built-in registry this is the model the exhaustive sweep uses *)
+Theorem C18_any_registry_adopts : forall r c h impl, reg_lookup r (hs_version h) = Some impl ->
+  ctx_handshake_in r c h = Ok {| cx_version := hs_version h; cx_codec := hs_codec h; cx_platform := hs_platform h; cx_handshaked := true |}.
+Proof. exact ctx_handshake_in_adopts. Qed.
+Theorem C18_any_registry_rejects : forall r c h, reg_lookup r (hs_version h) = None -> ctx_handshake_in r c h = Err EInvalidVersion.
+Proof. exact ctx_handshake_in_rejects. Qed.
+Theorem C18_builtin_registry_is_the_swept_model : forall c h, ctx_handshake_in c_protocol_versions c h = ctx_handshake c h.
+Proof. exact ctx_handshake_in_builtin. Qed.
+Theorem C18_alias_adopts_its_number : forall r k impl c h, hs_version h = k ->
+  ctx_handshake_in (reg_register r k impl) c h =
+  Ok {| cx_version := k; cx_codec := hs_codec h; cx_platform := hs_platform h; cx_handshaked := true |}.
+Proof. exact alias_adopts_its_number. Qed.
+
 Print Assumptions C18_decode_encode.
 Print Assumptions C18_encode_decode.
 Print Assumptions C18_only_two_bytes.
@@ -42,3 +57,7 @@ Print Assumptions C18_lookup_unregistered_fails.
 Print Assumptions C18_registry.
 Print Assumptions C18_context_adopts.
 Print Assumptions C18_context_rejects.
+Print Assumptions C18_any_registry_adopts.
+Print Assumptions C18_any_registry_rejects.
+Print Assumptions C18_builtin_registry_is_the_swept_model.
+Print Assumptions C18_alias_adopts_its_number.
